@@ -123,6 +123,7 @@ type access struct {
 	Kind  accessKind
 	Base  ssa.Value
 	What  string // "field", "map update", ...
+	Deep  bool   // touches the object behind the field (map, slice, pointee), not the field itself
 }
 
 // accessesOfField enumerates every access to field f in fns.
@@ -139,7 +140,7 @@ func accessesOfField(fns []*ssa.Function, f *types.Var, deep bool) []access {
 			case *ssa.Field:
 				st, _ := x.X.Type().Underlying().(*types.Struct)
 				if st != nil && st.Field(x.Field) == f {
-					out = append(out, access{fn, in, accRead, x.X, "field of struct value"})
+					out = append(out, access{fn, in, accRead, x.X, "field of struct value", false})
 					if deep {
 						out = append(out, deepUses(fn, x, x.X)...)
 					}
@@ -149,7 +150,7 @@ func accessesOfField(fns []*ssa.Function, f *types.Var, deep bool) []access {
 				if x.Op == token.MUL && owner != nil {
 					if n, ok := x.Type().(*types.Named); ok && n.Obj() == owner {
 						if _, isAlloc := x.X.(*ssa.Alloc); !isAlloc {
-							out = append(out, access{fn, in, accRead, x.X, "copy of the whole struct"})
+							out = append(out, access{fn, in, accRead, x.X, "copy of the whole struct", false})
 						}
 					}
 				}
@@ -199,13 +200,13 @@ func classifyAddrUses(fn *ssa.Function, addr ssa.Value, base ssa.Value, deep boo
 		switch x := r.(type) {
 		case *ssa.Store:
 			if x.Addr == addr {
-				out = append(out, access{fn, r, accWrite, base, "field"})
+				out = append(out, access{fn, r, accWrite, base, "field", false})
 			} else {
-				out = append(out, access{fn, r, accWrite, base, "address of the field stored elsewhere"})
+				out = append(out, access{fn, r, accWrite, base, "address of the field stored elsewhere", false})
 			}
 		case *ssa.UnOp:
 			if x.Op == token.MUL {
-				out = append(out, access{fn, r, accRead, base, "field"})
+				out = append(out, access{fn, r, accRead, base, "field", false})
 				if deep {
 					out = append(out, deepUses(fn, x, base)...)
 				}
@@ -216,17 +217,17 @@ func classifyAddrUses(fn *ssa.Function, addr ssa.Value, base ssa.Value, deep boo
 		case ssa.CallInstruction:
 			n := calleeName(x)
 			if strings.HasPrefix(n, "sync/atomic.") {
-				out = append(out, access{fn, r, accAtomic, base, n})
+				out = append(out, access{fn, r, accAtomic, base, n, false})
 			} else if strings.HasPrefix(n, "(*sync.") || strings.HasPrefix(n, "(*sync/atomic.") {
 				// method of a sync type on the field itself: self-synchronised
 			} else {
-				out = append(out, access{fn, r, accWrite, base, "address passed to " + n})
+				out = append(out, access{fn, r, accWrite, base, "address passed to " + n, false})
 			}
 		case *ssa.DebugRef:
 		case *ssa.MakeClosure:
-			out = append(out, access{fn, r, accWrite, base, "address captured by a closure"})
+			out = append(out, access{fn, r, accWrite, base, "address captured by a closure", false})
 		default:
-			out = append(out, access{fn, r, accWrite, base, fmt.Sprintf("address used by %T", r)})
+			out = append(out, access{fn, r, accWrite, base, fmt.Sprintf("address used by %T", r), false})
 		}
 	}
 	return out
@@ -247,14 +248,14 @@ func deepUses(fn *ssa.Function, v ssa.Value, base ssa.Value) []access {
 			switch x := r.(type) {
 			case *ssa.MapUpdate:
 				if x.Map == v {
-					out = append(out, access{fn, r, accWrite, base, "map update"})
+					out = append(out, access{fn, r, accWrite, base, "map update", false})
 				}
 			case *ssa.Lookup:
 				if x.X == v {
-					out = append(out, access{fn, r, accRead, base, "map lookup"})
+					out = append(out, access{fn, r, accRead, base, "map lookup", false})
 				}
 			case *ssa.Range:
-				out = append(out, access{fn, r, accRead, base, "range"})
+				out = append(out, access{fn, r, accRead, base, "range", false})
 			case *ssa.IndexAddr:
 				if x.X == v {
 					for _, a := range classifyAddrUses(fn, x, base, false) {
@@ -264,7 +265,7 @@ func deepUses(fn *ssa.Function, v ssa.Value, base ssa.Value) []access {
 				}
 			case *ssa.Index:
 				if x.X == v {
-					out = append(out, access{fn, r, accRead, base, "element"})
+					out = append(out, access{fn, r, accRead, base, "element", false})
 				}
 			case *ssa.Slice:
 				if x.X == v {
@@ -279,18 +280,18 @@ func deepUses(fn *ssa.Function, v ssa.Value, base ssa.Value) []access {
 				n := calleeName(x)
 				switch {
 				case n == "builtin.len", n == "builtin.cap":
-					out = append(out, access{fn, r, accRead, base, n})
+					out = append(out, access{fn, r, accRead, base, n, false})
 				case n == "builtin.delete":
-					out = append(out, access{fn, r, accWrite, base, "map delete"})
+					out = append(out, access{fn, r, accWrite, base, "map delete", false})
 				case n == "builtin.append":
 					if len(c.Args) > 0 && c.Args[0] == v {
-						out = append(out, access{fn, r, accRead, base, "append source"})
+						out = append(out, access{fn, r, accRead, base, "append source", false})
 					}
 				case !c.IsInvoke() && len(c.Args) > 0 && c.Args[0] == v && staticCallee(x) != nil && staticCallee(x).Signature.Recv() != nil:
 					// method call on the guarded object (list.PushBack, heap.Len ...)
-					out = append(out, access{fn, r, accWrite, base, "method " + n + " on the guarded object"})
+					out = append(out, access{fn, r, accWrite, base, "method " + n + " on the guarded object", false})
 				case func() bool { _, ok := controlledHigherOrder[n]; return ok }():
-					out = append(out, access{fn, r, accWrite, base, n + " on the guarded object"})
+					out = append(out, access{fn, r, accWrite, base, n + " on the guarded object", false})
 				}
 			case *ssa.MakeInterface:
 				// boxed and handed to container/heap etc.
@@ -298,14 +299,57 @@ func deepUses(fn *ssa.Function, v ssa.Value, base ssa.Value) []access {
 			case *ssa.UnOp:
 				if x.Op == token.MUL && x.X == v {
 					// *ptr: load of the object behind a pointer field
-					out = append(out, access{fn, r, accRead, base, "object behind the pointer"})
+					out = append(out, access{fn, r, accRead, base, "object behind the pointer", false})
 					walk(x)
 				}
 			}
 		}
 	}
 	walk(v)
+	for i := range out {
+		out[i].Deep = true
+	}
 	return out
+}
+
+// copiedFromShared: the local cell behind base was filled by copying a whole
+// struct value that came from elsewhere (a by-value parameter or receiver, a
+// load through a pointer). The cell is private, the maps, slices and pointees
+// its fields refer to are still the shared ones.
+func copiedFromShared(base ssa.Value) bool {
+	root := base
+	for {
+		switch x := root.(type) {
+		case *ssa.FieldAddr:
+			root = x.X
+			continue
+		case *ssa.IndexAddr:
+			root = x.X
+			continue
+		}
+		break
+	}
+	al, ok := root.(*ssa.Alloc)
+	if !ok || al.Referrers() == nil {
+		return false
+	}
+	for _, r := range *al.Referrers() {
+		st, ok := r.(*ssa.Store)
+		if !ok || st.Addr != ssa.Value(al) {
+			continue
+		}
+		switch v := st.Val.(type) {
+		case *ssa.Parameter, *ssa.FreeVar, *ssa.Phi, *ssa.Extract:
+			return true
+		case *ssa.UnOp:
+			if v.Op == token.MUL {
+				if _, isAlloc := v.X.(*ssa.Alloc); !isAlloc {
+					return true
+				}
+			}
+		}
+	}
+	return false
 }
 
 // isFreshBase: base is an object allocated in fn that has not been published
@@ -385,6 +429,9 @@ func (c *Ctx) checkGuardRows(rule string, rows []guardRow, scope []*ssa.Function
 			nChecked++
 			fnName := p.FnName(a.Fn)
 			fresh := isFreshBase(a.Fn, a.Base, a.Instr)
+			if fresh && a.Deep && copiedFromShared(a.Base) {
+				fresh = false
+			}
 			okAcc := false
 			why := ""
 			switch row.Kind {
@@ -746,4 +793,36 @@ func canFollowAvoiding(a, b ssa.Instruction, al *ssa.Alloc) bool {
 		}
 	}
 	return false
+}
+
+// checkNoLockCopies: a struct that carries its own mutex (rows whose lock is a
+// field of the same type) has no method with a value receiver: such a method
+// runs on a copy made by the caller before any lock is taken - it locks the
+// copy's mutex, which excludes nobody, and returns fields copied while a writer
+// may be half way through.
+func (c *Ctx) checkNoLockCopies(rule string, rows []guardRow) {
+	p := c.P
+	seen := map[string]bool{}
+	for _, row := range rows {
+		if row.Kind != protMutex || !strings.HasPrefix(row.Lock, row.Type+".") || seen[row.Rel+"."+row.Type] {
+			continue
+		}
+		seen[row.Rel+"."+row.Type] = true
+		named := p.Type(row.Rel, row.Type)
+		if named == nil {
+			continue // reported by the row itself
+		}
+		bad := 0
+		for i := 0; i < named.NumMethods(); i++ {
+			m := named.Method(i)
+			sig := m.Type().(*types.Signature)
+			if _, isPtr := sig.Recv().Type().(*types.Pointer); !isPtr {
+				bad++
+				c.viol(rule, fmt.Sprintf("%s.%s.%s has a value receiver", row.Rel, row.Type, m.Name()), p.Pos(m.Pos()), "the method works on a copy of the struct made before "+row.Lock+" is taken (and locks the copy's mutex): the guarded fields are read with no protection")
+			}
+		}
+		if bad == 0 {
+			c.ok(rule, "no method of "+row.Rel+"."+row.Type+" takes the struct (and its mutex) by value", p.Pos(named.Obj().Pos()), fmt.Sprintf("%d method(s)", named.NumMethods()))
+		}
+	}
 }
